@@ -146,16 +146,68 @@ def pickle_checks(ctx, variants):
                      dict(estimator=name, params={k: repr(v)[:60] for k, v in kw.items()}))
 
 
+def same_metric(name, a, b):
+  """bit-identical components_; LFDA with n_components < d goes through ARPACK, whose start vector is random: the
+  eigenvectors come back with arbitrary signs and rounding-level differences, the learned distance (M) is the same"""
+  La, Lb = np.asarray(a.components_), np.asarray(b.components_)
+  if np.array_equal(La, Lb, equal_nan=True):
+    return True
+  if name == 'LFDA' and La.shape == Lb.shape:
+    Ma, Mb = La.T.dot(La), Lb.T.dot(Lb)
+    return bool(np.allclose(Ma, Mb, rtol=1e-9, atol=1e-12 * (np.abs(Ma).max() + 1e-300)))
+  return False
+
+
+def clone_checks(ctx):
+  """parameters are stored untouched THROUGH a fit (same objects, arrays with unchanged contents), so that a clone taken
+  afterwards behaves identically when fitted"""
+  import copy
+  from sklearn.base import clone
+  for name, kw, data in fits.zoo_specs(np.random.default_rng(ctx.seed + 41), variants=True):
+    if kw.get('random_state', 0) is None:
+      continue
+    snap = {k: copy.deepcopy(v) for k, v in kw.items()}
+    inp = dict(estimator=name, params={k: (repr(v)[:60] if not isinstance(v, np.ndarray) else 'ndarray %s %s' % (
+        v.shape, 'F' if v.flags.f_contiguous and not v.flags.c_contiguous else 'C' if v.flags.c_contiguous else 'strided'))
+        for k, v in kw.items()})
+    ctx.count('clone_behaves_identically', 1)
+    ctx.hist('clone.estimator', name)
+    try:
+      with warnings.catch_warnings():
+        warnings.simplefilter('ignore')
+        est = fits.make_estimator(name, kw)
+        est.fit(*fits.fit_args(name, data))
+        after = est.get_params()
+        bad = [k for k, v in kw.items() if after.get(k) is not v]
+        changed = [k for k, v in kw.items() if isinstance(v, np.ndarray) and not np.array_equal(v, snap[k], equal_nan=True)]
+        c = clone(est)
+        c.fit(*fits.fit_args(name, data))
+    except Exception as ex:
+      ctx.count('clone_behaves_identically', 0, skipped=1)
+      ctx.hist('clone.fit_failed', '%s:%s' % (name, type(ex).__name__))
+      continue
+    if bad:
+      ctx.fail_input('clone_behaves_identically', '%s: get_params() after fit no longer returns the objects passed (%s)' % (name, bad), inp)
+    if changed:
+      ctx.fail_input('clone_behaves_identically', '%s: fit changed the contents of the array passed as %s' % (name, changed), inp)
+    elif not same_metric(name, est, c):
+      ctx.fail_input('clone_behaves_identically', '%s: a clone of the fitted estimator learns a different metric from the same data' % name,
+                     inp, observed=np.asarray(c.components_).tolist(), expected=np.asarray(est.components_).tolist())
+
+
 def run(ctx):
   ctx.rule = ("finite enumeration (exhaustive): 17 estimators x every constructor parameter x {fresh sentinel object, "
               "ndarray, callable} -> get_params()[name] is the identical object, other parameters keep defaults, "
-              "set_params round trip; deprecated names: FutureWarning + stored under the replacement; every query "
+              "set_params round trip; 17 estimators x documented option values (array priors / inits / bases in C, Fortran and strided "
+              "layouts): parameters are the same objects with unchanged contents after fit and a clone of the fitted estimator "
+              "learns the same metric; deprecated names: FutureWarning + stored under the replacement; every query "
               "method of every unfitted estimator raises NotFittedError; pickle round trip of fitted estimators with "
               "bit-identical outputs. distinct = distinct (estimator, parameter, value kind).")
   ctx.trusted = ["Coq 8.16.1 kernel + vm_compute", "translator tools/translate_init.py (constructor bodies -> attr/expr table)",
                  "scikit-learn BaseEstimator.get_params/set_params/clone semantics: getattr/setattr on the signature names (oracle, validated by the enumeration)"]
   ctx.build_property(gen_needed=['Src_init', 'Src_query'])
   ctor_checks(ctx)
+  clone_checks(ctx)
   not_fitted_checks(ctx)
   pickle_checks(ctx, ctx.tier == 'thorough')
 
